@@ -153,6 +153,10 @@ func checkC11(sc *Scenario) *CheckResult {
 	}
 	res.Key = fmt.Sprintf("%s|%v|%d|%s|%x|%s", sc.Note, reached, status, sc.Client.TargetOverride, sc.Backend.RawBody, sc.Client.Form)
 	res.Sample = map[string]any{"mutations": sc.Note, "form": sc.Client.Form, "handler_reached": reached, "client_status": status, "backend_kind": sc.Backend.Kind, "backend_status": sc.Backend.HTTPStatus}
+	if out.Hang && out.HangWhy != "" {
+		res.violate("hang", "hang", "the exchange wedged: %s (mutations %s)", out.HangWhy, sc.Note)
+		return res
+	}
 	if out.Hang {
 		res.violate("hang", "hang", "ServeHTTP did not return within %s although both peers had finished (mutations %s)", watchdog, sc.Note)
 		return res
